@@ -804,6 +804,16 @@ def cp1(F, R):
                     if a.get("k") in ("copy", "move") and a["p"]["l"] == dest and not a["p"]["proj"]:
                         use = (b2, t2)
             if use is None:
+                # matched on directly: `match table.push(x) { Ok(()) => .., Err(_) => Err(TooMany..) }`
+                err_edges = [(gb, gi) for (gb, gi, g) in all_guards(fn) if g.kind == "variant" and g.variant == "Err" and strip_refs(g.term)[0] == "call" and strip_refs(g.term)[3] == b]
+                if err_edges:
+                    okm = True
+                    for (gb, gi) in err_edges:
+                        rs_ = fn.reach([fn.succ(gb)[gi][0]])
+                        errs_ = [x for x in err_returns(fn) if x[0] in rs_]
+                        okm = okm and bool(errs_) and all(x[2] == VARIANT_OF_TABLE[tab] for x in errs_) and not any(x[0] in rs_ for x in ok_returns(fn))
+                    R.require(okm, fn, "push(%s):match" % tab, "a failed push into %s is not reported as %s" % (tab, VARIANT_OF_TABLE[tab]), fn.loc(b))
+                    continue
                 R.bad(fn, "push(%s):result-dropped" % tab, "result of checked push into %s is not consumed" % tab, fn.loc(b))
                 continue
             b2, t2 = use
@@ -833,6 +843,12 @@ def cp1(F, R):
             want = tab_of_variant[var]
             full_of = lambda tab: g_call("Vec::is_full", True, lambda a, tab=tab: table_of_term(a[0]) == tab)
             own = guarded(fn, b, full_of(want))[0]
+            if not own:
+                # ... or by the failure of the checked push into that very table
+                def push_failed(g, want=want):
+                    t_ = strip_refs(g.term)
+                    return g.kind == "variant" and g.variant == "Err" and t_[0] == "call" and t_[1] and t_[1].endswith("Vec::push") and t_[2] and table_of_term(t_[2][0]) == want
+                own = guarded(fn, b, push_failed)[0]
             foreign = [t_ for t_ in VARIANT_OF_TABLE if t_ != want and guarded(fn, b, full_of(t_))[0]]
             R.require(own and not foreign, fn, "refusal:%s" % var, "Err(%s) is %s: the limit that is reported must be the limit that was hit" % (var, "decided by %s.is_full()" % foreign[0] if foreign else "not guarded by %s.is_full()" % want), fn.loc(b, i))
     for name, tab in (("close_dir", "open_dirs"), ("close_file", "open_files"), ("close_volume", "open_volumes")):
